@@ -225,6 +225,13 @@ def rest_ops(f):
         if kind == 'list' and op == 'list' and '?' not in url:
             ops.append((rtype, 'list_all_projects', 'GET',
                         url + '?all_projects=true', None, None, 'list'))
+            # ... and filtered by the owner's project id (with and without a
+            # field projection): a filter is not an authorisation
+            ops.append((rtype, 'list_owner_project', 'GET',
+                        url + '?project_id=projA', None, None, 'list'))
+            ops.append((rtype, 'list_owner_project_fields', 'GET',
+                        url + '?project_id=projA&fields=id,name', None, None,
+                        'list'))
     return ops
 
 
